@@ -115,18 +115,20 @@ Contexts == CASE Scope = "one" ->
 \*   sibling  message nested in the same parent      shadow   message nested in a TOP-LEVEL message that has the
 \*                                                            same simple name as the (nested) subject; it is
 \*                                                            named like the subject's own child, if there is one
+\*   twin     EARLIER top-level message of the same file whose simple name equals that of the subject's own nested
+\*            child (the reference must not bind to the child `kid`)
 \*   xfile / xnested   top-level / nested message of the other file of the package (file b imports file a)
 \*   dep / depnested   top-level / nested message of a dependency package;  wkt  google.protobuf.Duration
 MsgTargets(c) == CASE Scope = "small" -> {"self"}
                    [] Scope = "mid" -> {"self", "before"}
                    [] OTHER -> {"self", "peer", "before", "after", "cousin", "dep", "depnested", "wkt"}
-                               \cup (IF c.kids THEN {"kid"} ELSE {})
+                               \cup (IF c.kids THEN {"kid", "twin"} ELSE {})
                                \cup (IF c.depth >= 2 THEN {"parent", "sibling", "shadow"} ELSE {})
                                \cup (IF c.depth >= 3 THEN {"root"} ELSE {})
                                \cup (IF c.file = "b" THEN {"xfile", "xnested"} ELSE {})
 EnumTargets(c) == CASE Scope \in {"small", "mid"} -> {"etop"}
                     [] OTHER -> {"etop", "ecousin", "edep", "edepnested"}
-                               \cup (IF c.kids THEN {"ekid"} ELSE {})
+                               \cup (IF c.kids THEN {"ekid", "etwin"} ELSE {})
                                \cup (IF c.depth >= 2 THEN {"esibling", "eshadow"} ELSE {})
                                \cup (IF c.file = "b" THEN {"exfile", "exnested"} ELSE {})
 TypeChoices(c) == { [kind |-> k, ref |-> ""] : k \in ScalarPool }
